@@ -1,6 +1,7 @@
 use crate::common::Ctx;
 use serde_json::Value;
 
+pub mod c01;
 pub mod c02;
 pub mod c03;
 pub mod c04;
@@ -26,6 +27,7 @@ type ReplayFn = fn(&Ctx, &Value) -> Result<(bool, String), String>;
 
 fn table(prop: &str) -> Option<(RunFn, ReplayFn)> {
     Some(match prop {
+        "C01" => (c01::run, c01::replay),
         "C02" => (c02::run, c02::replay),
         "C03" => (c03::run, c03::replay),
         "C04" => (c04::run, c04::replay),
